@@ -198,6 +198,39 @@ def run(ctx):
             later |= nd.reachable(s)
         rep.check(r2, pops[0][0] not in later, 'nd_ns_repl:populate-then-options', 'set_options is not followed by populate', nd.loc(so[0][0]))
 
+    # the echo reply / neighbour advertisement built above is carried by the IP layer whole and unpadded: the IP
+    # payload is the ICMP object itself and the IP buffer is exactly header + its length (same facts as C04-R2)
+    from rules.c04 import obj_of, len_of_obj, alloc_is_min_plus_len
+    for fid, cls, lenset, l4cls in [('layer_3::ipv4::repl', 'Ipv4', 'set_total_length', 'Icmp'), ('layer_3::ipv6::repl', 'Ipv6', 'set_payload_length', 'Icmpv6')]:
+        f3 = F.fn(fid)
+        rep.saw(f3)
+        objs = [l for l, loc_ in enumerate(f3.locals) if re.search(r'Mutable%sPacket<' % l4cls, loc_['ty'])]
+        cps = [(b, obj_of(f3.objview(f3.arg(b, 1), b))) for b, t in f3.calls(r"::MutableIp\w+Packet::<'a>::set_payload$")]
+        cps = [(b, o) for b, o in cps if o in objs]
+        ok = len(cps) == 1
+        det = '%d copies of the %s reply into the IP packet' % (len(cps), l4cls)
+        if ok:
+            b, o = cps[0]
+            v = f3.objview(f3.arg(b, 1), b)
+            whole = is_call(peel(v, unwraps=False), r'Packet>::packet$') or (is_call(peel(v, unwraps=False), r'to_vec$') and is_call(peel(peel(v, unwraps=False)[2][0], unwraps=False), r'Packet>::packet$'))
+            ow = [b2 for b2, tt in f3.calls(r"::MutableIp\w+Packet::<'a>::owned$") if b2 in f3.dominators().get(b, ())]
+            alloc = bool(ow) and alloc_is_min_plus_len(f3.objview(f3.arg(ow[-1], 0), ow[-1]), o, cls)
+            ls = [b2 for b2, tt in f3.calls(r"::MutableIp\w+Packet::<'a>::%s$" % lenset) if b2 in f3.dominators().get(b, ()) or b in f3.dominators().get(b2, ())]
+            lens = []
+            for b2 in ls:
+                val = f3.objview(f3.arg(b2, 1), b2)
+                if any(isinstance(c, tuple) and c[0] == 'call' and re.search(r'Packet>::packet$', c[1]) and obj_of(c[2][0]) == o for c in walk(val)):
+                    vv = peel(val, casts=True)
+                    if isinstance(vv, tuple) and vv[0] == 'field' and vv[2] == '0':
+                        vv = vv[1]
+                    if cls == 'Ipv4':
+                        lens.append(isinstance(vv, tuple) and vv[0] == 'bin' and vv[1] in ('Add', 'AddWithOverflow') and is_call(peel(vv[2]), r'minimum_packet_size$') and len_of_obj(vv[3], o))
+                    else:
+                        lens.append(len_of_obj(val, o))
+            ok = whole and alloc and lens == [True]
+            det = 'payload = the whole %s reply: %s; buffer = header + its length: %s; length field from its length: %s' % (l4cls, whole, alloc, lens)
+        rep.check(r2, ok, '%s:%s-carried-whole' % (fid.split('::')[-2], l4cls.lower()), det, '%s:%d' % (f3.file, f3.line))
+
     r3 = rep.rule('C05-R3', 'the converse: an ARP request / echo request / neighbour solicitation is left unanswered only for the reasons of the statement (other operation/type/code, target not handled, truncated message) - decided by enumerating the path facts of every None return', floor=4)
     from rules import silence
     silence.run_for(ctx, r3, ['layer_2::arp::repl', 'layer_4::icmpv4::repl', 'layer_4::icmpv6::repl', 'layer_4::icmpv6::nd_ns_repl'])
